@@ -115,7 +115,7 @@ def make(targets, timeout=1500, jobs=8):
         sh('make .Makefile.d', 300, cwd=COQ)
     name = os.path.basename(targets[0]).split('.')[0].split('_')[0] if targets else 'misc'
     with Lock(name):
-        return sh('make -j%d %s' % (jobs, ' '.join(targets)), timeout, cwd=COQ)
+        return sh('ulimit -v 24000000; make -j%d %s' % (jobs, ' '.join(targets)), timeout, cwd=COQ)
 
 
 def theorem_names(pid):
